@@ -8,7 +8,7 @@
     regenerated from the engine (coq/gen/ZobristTables.v). *)
 From Coq Require Import ZArith NArith List Bool.
 From Texel Require Import Chess.Types Chess.Position Chess.PositionSpec Chess.PositionProofs3
-  Chess.PositionTheorems Chess.Fen Chess.PositionInst Chess.PositionExamples Chess.PositionSources Chess.PositionB.
+  Chess.PositionTheorems Chess.Fen Chess.PositionInst Chess.PositionExamples Chess.PositionSources Chess.PositionB Chess.PositionSerialize.
 Import ListNotations.
 Local Open Scope N_scope.
 
@@ -108,12 +108,13 @@ Theorem C02_rep_invariant_readFEN : forall zk, emptyKeysZero zk -> forall s p,
 Proof. exact readFEN_consistent. Qed.
 Print Assumptions C02_rep_invariant_readFEN.
 
-(** not yet proved: that the output of deSerialize satisfies the invariant (checked by the
-    decidable [consistentb] on every deserialised position of the correspondence run) *)
-Definition C02_rep_invariant_deSerialize_statement : Prop :=
-  forall zk, emptyKeysZero zk ->
-    forall d, Forall (fun w => w < 2^64) d -> length d = 5%nat ->
-              Forall (fun pc => pc < 13) (squares (deSerialize zk d)) -> Consistent zk (deSerialize zk d).
+(** every position produced by deSerialize from words whose nibbles are piece codes satisfies
+    the invariant ([deserPairs d] = the 64 (square, nibble) pairs in the order of the loop) *)
+Theorem C02_rep_invariant_deSerialize : forall zk, emptyKeysZero zk -> forall d,
+  Forall (fun o => snd o < 13) (deserPairs d) -> Consistent zk (deSerialize zk d).
+Proof. exact deSerialize_consistent. Qed.
+Print Assumptions C02_rep_invariant_deSerialize.
+
 Theorem C02_rep_invariant_decidable : forall zk p, consistentb zk p = true -> Consistent zk p.
 Proof. exact consistentb_sound. Qed.
 Print Assumptions C02_rep_invariant_decidable.
@@ -163,9 +164,7 @@ Definition C02_no_ub_statement : Prop :=
     intsFit (fst (makeMove zk p m)) = true /\ epInb (epSquare (fst (makeMove zk p m))) = true /\
     castleMask (fst (makeMove zk p m)) < 16.
 
-(** serialisation: false outside 8-bit / 16-bit counters (finding F6); the general round trip
-    inside the range is not yet proved (statement below; checked on every serialised position
-    of the correspondence run) *)
+(** serialisation: false outside 8-bit / 16-bit counters (finding F6) *)
 Theorem C02_serialize_roundtrip_refuted :
   (exists p, readFEN zk0 kk300FEN = FenOk p /\ Consistent zk0 p /\ halfMoveClock p = 300%Z /\
              halfMoveClock (deSerialize zk0 (serialize p)) = 44%Z) /\
@@ -173,13 +172,13 @@ Theorem C02_serialize_roundtrip_refuted :
              fullMoveCounter (deSerialize zk0 (serialize p)) = 4464%Z).
 Proof. exact serialize_roundtrip_refuted. Qed.
 Print Assumptions C02_serialize_roundtrip_refuted.
-Definition C02_serialize_roundtrip_statement : Prop :=
-  forall zk p, emptyKeysZero zk -> Consistent zk p -> (0 <= halfMoveClock p < 256)%Z -> (0 <= fullMoveCounter p < 65536)%Z ->
-    castleMask p < 16 -> epInb (epSquare p) = true ->
-    normEmpty (deSerialize zk (serialize p)) = normEmpty p.
-Theorem C02_serialize_roundtrip_partial : normEmpty (deSerialize zk0 (serialize startPos)) = normEmpty startPos.
-Proof. exact serialize_roundtrip_example. Qed.
-Print Assumptions C02_serialize_roundtrip_partial.
+(** inside the counter ranges the compact form round-trips (all live fields) *)
+Theorem C02_serialize_roundtrip : forall zk, emptyKeysZero zk -> forall p,
+  Consistent zk p -> (0 <= halfMoveClock p < 256)%Z -> (0 <= fullMoveCounter p < 65536)%Z ->
+  castleMask p < 16 -> epInb (epSquare p) = true ->
+  normEmpty (deSerialize zk (serialize p)) = normEmpty p.
+Proof. exact serialize_roundtrip. Qed.
+Print Assumptions C02_serialize_roundtrip.
 
 (** FEN: statement (not yet proved in general) and the instance for the start position *)
 Definition C02_fen_roundtrip_statement : Prop :=
